@@ -9,7 +9,7 @@ rm -rf "$SCR"; mkdir -p "$SCR"
 rsync -a --exclude .git /repo/ "$SCR/"
 if ! (cd "$SCR" && patch -p1 -s --no-backup-if-mismatch < "$PATCH"); then echo "PATCH-FAILED $PATCH"; rm -rf "$SCR"; exit 2; fi
 OUT=$(cd /verif && ./bin/gowp --prop "$PROP" --repo "$SCR" --no-evidence --workdir "$SCR.work" 2>&1); RC=$?
-if [ -d "/verif/bounded/$(echo "$PROP" | tr 'A-Z' 'a-z')" ] && [ $RC -ne 3 ]; then
+if /verif/tools/bounded.sh --has "$PROP" && [ $RC -ne 3 ]; then
   B="$SCR.bounded.json"
   if /verif/tools/bounded.sh "$PROP" "$SCR" quick "$B" >/dev/null 2>&1 || [ -s "$B" ]; then
     BOUT=$(python3 /verif/tools/merge_bounded.py "$PROP" "$B"); [ $? -eq 1 ] && RC=1
